@@ -375,6 +375,13 @@ def _check(pid, tier, verif_seed, repo, nlanes, replay=None, runs=None, wall_cap
         len(digests), len(sigs), nevents))
     if agg.get("reasons"):
         say("discard/budget reasons: %s" % json.dumps(agg["reasons"], sort_keys=True))
+    notj = agg["outcomes"].get("DISCARD", 0) + agg["outcomes"].get("BUDGET", 0)
+    tot = sum(agg["outcomes"].values())
+    if tot and notj * 2 > tot:
+        # a verdict of "held" that rests on few judged runs must say so: most runs ended in a state the statement does
+        # not cover or the simulator cannot attribute (typical for an implementation whose randomness bypasses the seams)
+        lines.append("NOTE property=%s only %d of %d runs were judged, %d ended undecided (%s): the result says little about this tree" % (
+            pid, tot - notj, tot, notj, "; ".join("%s x%d" % (k, v) for k, v in sorted(agg.get("reasons", {}).items(), key=lambda kv: -kv[1])[:3])))
     say("faults fired: %s" % json.dumps(agg["faults"], sort_keys=True))
     say("probes: %s" % json.dumps(agg["probes"], sort_keys=True))
     if state["truncated"]:
